@@ -70,6 +70,18 @@ def strLt : Str → Str → Bool
 
 def strLe (a b : Str) : Bool := !strLt b a
 
+/-- `char::is_whitespace` (Unicode White_Space) -/
+def isWhitespace (c : Char) : Bool :=
+  let n := c.toNat
+  (9 ≤ n && n ≤ 13) || n = 32 || n = 0x85 || n = 0xA0 || n = 0x1680 || (0x2000 ≤ n && n ≤ 0x200A) ||
+  n = 0x2028 || n = 0x2029 || n = 0x202F || n = 0x205F || n = 0x3000
+
+/-- `str::trim` -/
+def trim (s : Str) : Str := ((s.dropWhile isWhitespace).reverse.dropWhile isWhitespace).reverse
+
+/-- `str::len()`: length in UTF-8 bytes -/
+def utf8Len (s : Str) : Nat := (s.map Char.utf8Size).sum
+
 /-- decimal digits of a natural number, most significant first -/
 def natDigits (n : Nat) : Str := (toString n).toList
 
